@@ -241,10 +241,13 @@ def run_property(prop, tier="quick", seed=0, unit_filter=None, nproc=None, extra
     n_viol = sum(1 for r in reported if not r["known"])
     level = "proof"
     explanation = None
-    if bounded_units or n_known or exit_code != 0:
+    if bounded_units or known or exit_code != 0 or discharged != obligations:
         level = "other"
-        explanation = ("contract-based deductive verification; not a clean proof on this run: %d bounded unit(s), %d known finding(s), "
-                       "%d unlisted violation(s), %d undecided, %d checker error(s)" % (len(bounded_units), n_known, n_viol, len(undecided), len(errors)))
+        explanation = ("contract-based deductive verification (same machinery as a proof-level check: VCs from the real source, z3/cvc5, "
+                       "native replay); reported as 'other' because this property is not a clean proof on this tree: %d bounded unit(s), "
+                       "%d recorded known finding(s) (%d obligations fail and are listed in known_findings.txt), %d unlisted violation(s), "
+                       "%d undecided, %d checker error(s); every other obligation is discharged"
+                       % (len(bounded_units), len(known), obligations - discharged - len(undecided), n_viol, len(undecided), len(errors)))
     ev = dict(
         property_id=prop, tier=tier, seed=seed, level=level,
         coverage=dict(
